@@ -54,7 +54,13 @@ def build_object(march, script):
         if isinstance(it, str):
             a.assemble(it, ostream, diag)
         else:
+            n0 = len(obj.relocations)
             ostream.emit(it())
+            rtype = getattr(it, "rtype", None)
+            if rtype:                      # the relocation type the site is to carry (see jal below)
+                for r in obj.relocations[n0:]:
+                    if r.reloc_type in ("cb_imm11", "cbl_imm11"):
+                        r.reloc_type = rtype
     a.flush()
     return obj
 
@@ -75,6 +81,22 @@ def cbl(rd, target):
         from ppci.arch.riscv.rvc_instructions import CBl
 
         return CBl(getattr(R, "LR" if rd == 1 else "R%d" % rd), target)
+    return mk
+
+
+def jal(rd, target, rtype):
+    """32-bit `jal x<rd>, target` carrying the relaxable relocation rtype (cb_imm11 | cbl_imm11), every combination:
+    the instruction classes only produce (x0, cb_imm11) and (rd, cbl_imm11) - RiscvArch.branch(reg, label) for any
+    reg -; the other pairs are made by emitting CBl and re-typing its relocation entry in the object"""
+    mk = cbl(rd, target)
+    if rd == 0:
+        def mk(target=target):
+            from ppci.arch.riscv import registers as R
+            from ppci.arch.riscv.rvc_instructions import CBl
+
+            return CBl(R.R0, target)
+    mk.rtype = rtype
+    mk.__qualname__ = "jal x%d, %s [%s]" % (rd, target, rtype)
     return mk
 
 
